@@ -221,8 +221,10 @@ contract(
 )
 
 # ---- backward (ALAP) scheduling: the deadline is derived from successors / on-start predecessors / project end -----
-ghost("SuccList", ["ts"], None, opaque=note_type(List(Ref("Task"), region="succlist")), types=[Ref("TaskScenario")],
+# successor edges of a task: (successor, gapduration of its dependency edge), an abstract function of the dependency lists
+ghost("SuccList", ["ts"], None, opaque=note_type(List(Tuple(Ref("Task"), Opt(Str)), region="succlist")), types=[Ref("TaskScenario")],
       reads=["@depends"])
+ghost("EdgeGap", ["e"], "ite(e[1] is None or some(e[1]) == '', 0, uf_dur(some(e[1])) * 3600)")
 
 contract(
     TS + "::TaskScenario.schedule", variant="alap-derived", props=["C04", "C08", "C11"],
@@ -232,9 +234,10 @@ contract(
         ("no-own-end", "TEnd(self.property, self.scenarioIdx) is None and TStart(self.property, self.scenarioIdx) is None"),
         ("effort-task", "IsEffortTask(self) and attr(self.property, 'allocate', self.scenarioIdx) is not None and "
                         "len(some(attr(self.property, 'allocate', self.scenarioIdx))) > 0"),
-        ("succ-placed", "forall(k, 0, len(SuccList(self)), SuccList(self)[k] != self.property and "
-                        "implies(TStart(SuccList(self)[k], self.scenarioIdx) is not None, "
-                        "some(TStart(SuccList(self)[k], self.scenarioIdx)) >= PStart(self.project)))"),
+        # successors are placed and the deadline they impose (their start minus the gap of the edge) is inside the horizon
+        ("succ-placed", "forall(k, 0, len(SuccList(self)), SuccList(self)[k][0] != self.property and "
+                        "implies(TStart(SuccList(self)[k][0], self.scenarioIdx) is not None, "
+                        "secs(some(TStart(SuccList(self)[k][0], self.scenarioIdx))) - EdgeGap(SuccList(self)[k]) >= secs(PStart(self.project))))"),
         ("no-onstart-deps", "forall(d, 'Ref:Dep', implies(d.is_dict, not d.onstart))"),
     ],
     assumes=K.anc_axioms_all("Resource") + L.anc_axioms("self.property") + PT_LEMMAS,
@@ -245,14 +248,16 @@ contract(
         # task that depends on it
         ("before-project-end", "implies(result, TEnd(self.property, self.scenarioIdx) is not None and "
                                "some(TEnd(self.property, self.scenarioIdx)) <= some(self.project.attributes['end']))"),
+        # ... minus the gap duration that the successor's edge asks for
         ("before-successors", "implies(result, forall(k, 0, len(SuccList(self)), "
-                              "implies(TStart(SuccList(self)[k], self.scenarioIdx) is not None, "
-                              "some(TEnd(self.property, self.scenarioIdx)) <= some(TStart(SuccList(self)[k], self.scenarioIdx)))))"),
+                              "implies(TStart(SuccList(self)[k][0], self.scenarioIdx) is not None, "
+                              "secs(some(TEnd(self.property, self.scenarioIdx))) <= "
+                              "secs(some(TStart(SuccList(self)[k][0], self.scenarioIdx))) - EdgeGap(SuccList(self)[k]))))"),
     ],
     calls={
         "self.getAllDependencies": ("contract", TS + "::TaskScenario.getAllDependencies"),
         "self._parse_duration": ("spec", ["self", "s"], "uf_dur(s)"),
-        "self._getSuccessors": ("spec", ["self"], "SuccList(self)"),
+        "self._getSuccessorEdges": ("spec", ["self"], "SuccList(self)"),
         "self._isResourceAvailable": ("pure", Bool),
         "self.project.dateToIdx": ("spec", ["self", "d"], "PIdx(self, d)"),
         "self.project.idxToDate": ("spec", ["self", "i"], "ite(self.attributes['start'] is None, None, PT(self, i))"),
@@ -265,9 +270,9 @@ contract(
             "locals": {"latest_end": DT, "onstart": Bool, "pred": Opt(Ref("Task")), "gapduration": Opt(Str),
                        "pred_start": Opt(DT), "gap_hours": Real}},
         3: {"inv": [("bound", "latest_end <= some(self.project.attributes['end']) and latest_end >= PStart(self.project)"),
-                    ("dominated", "forall(k, 0, _i, implies(TStart(_iter[k], self.scenarioIdx) is not None, "
-                                  "latest_end <= some(TStart(_iter[k], self.scenarioIdx))))")],
-            "locals": {"latest_end": DT, "succ_start": Opt(DT)}},
+                    ("dominated", "forall(k, 0, _i, implies(TStart(_iter[k][0], self.scenarioIdx) is not None, "
+                                  "secs(latest_end) <= secs(some(TStart(_iter[k][0], self.scenarioIdx))) - EdgeGap(_iter[k])))")],
+            "locals": {"latest_end": DT, "succ_start": Opt(DT), "succ_gap": Opt(Str)}},
         4: {"inv": [("cursor", "self.currentSlotIdx is not None and some(self.currentSlotIdx) >= lowerLimit - 1 and "
                                "some(self.currentSlotIdx) <= PIdx(self.project, end_date) - 1 and lowerLimit == 0")],
             "decreases": "some(self.currentSlotIdx)"},
